@@ -282,10 +282,10 @@ func (fr *frame) applyContract(b *ssa.BasicBlock, st *state, ins ssa.Instruction
 	switch {
 	case ct.Pure:
 		ms = newModset()
-	case len(ct.Modifies) > 0:
+	case len(ct.Modifies) > 0 || ct.External:
 		ms = newModset()
 		for _, k := range ct.Modifies {
-			ms.shape(k).any = true
+			ms.shape(vc.w.db.modKey(k)).any = true
 		}
 	case callee != nil && vc.ma.sets[callee] != nil:
 		ms = vc.ma.sets[callee]
@@ -311,6 +311,18 @@ func (fr *frame) applyContract(b *ssa.BasicBlock, st *state, ins ssa.Instruction
 			continue
 		}
 		c.assume(implies(bc, vc.trClause(trPost, cl)))
+	}
+	// ghost events emitted by the callee (definitional)
+	for _, em := range ct.Emits {
+		key := "G_" + em.Label
+		if !vc.ensureKey(key) {
+			continue
+		}
+		trE := bind(st, pre, results)
+		val, _ := trE.expr(em.Expr)
+		n := c.freshConst(key, c.heapSorts[key])
+		c.assume(implies(bc, fmt.Sprintf("(= %s %s)", n, val)))
+		st.heap[key] = n
 	}
 	fr.setResult(v, st, results, sig)
 	if v != nil && sig.Results().Len() == 0 {
